@@ -8,6 +8,23 @@ VERIF = os.path.dirname(os.path.dirname(os.path.abspath(__file__)))
 ALL = [f"C{i:02d}" for i in range(1, 21)]
 
 CHECKS = {
+    "C06": dict(
+        category="exploration",
+        technique="bounded-exhaustive enumeration of occurrence-pattern programs x scope shapes x names with a source map; every entity from every occurrence; rename applied and re-indexed",
+        text=("Exhaustive enumeration of generated programs: every sequence of <=2 (quick) / <=3 (thorough) distinct "
+              "statement patterns from a 12-pattern alphabet (the name several times around single operator characters, in "
+              "argument lists, after ';', across a continuation, in another letter case, inside comments and character "
+              "literals, as a substring of longer identifiers) x 4 scope shapes (local; same spelling in an inner BLOCK and as "
+              "a dummy argument; same spelling in another module used elsewhere; same spelling as a type component) x 4 names "
+              "(incl. one with '$'). For every entity and every one of its occurrences as request position, references and "
+              "documentHighlight must equal the recorded occurrence ranges; rename must edit exactly those ranges with the new "
+              "name, and after applying the edits and re-indexing a fresh server every occurrence must resolve to the renamed "
+              "declaration."),
+        note=("Trusted: the builder's source map (vf/fbuild.py). documentHighlight is compared with references. Entities are "
+              "variables, dummy arguments and components; procedures as rename targets are covered by the module-level shapes "
+              "only indirectly."),
+        design="DESIGN.md §4 C06",
+    ),
     "C12": dict(
         category="exploration",
         technique="bounded-exhaustive enumeration of access variants x scopes x contexts x every prefix and case, expected label set from the generator's model",
